@@ -126,6 +126,9 @@ def verify_replay_fresh(prop, path, inv):
 def do_replay(prop, path, quiet=False):
     with open(path) as f:
         payload = json.load(f)
+    from .core import Watchdog
+
+    Watchdog(1800, f"replay of {path}").__enter__()
     eng = payload.get("engine", "W")
     if eng == "S":
         # statistical batch finding: the replay is the batch itself (seed, tier, run count)
@@ -194,7 +197,10 @@ def run_w(prop, tier, seed, args):
         if cls in seen_classes:
             continue
         seen_classes.add(cls)
-        payload = handle_violation_w(prop, seed, r, args)
+        from .core import Watchdog
+
+        with Watchdog(900, f"minimisation of {prop} run {r['i']}"):
+            payload = handle_violation_w(prop, seed, r, args)
         known = classify_known(prop, payload)
         if known is not None:
             line = f"KNOWN-FINDING: property={prop} {known['what']}"
